@@ -1,7 +1,11 @@
 #!/bin/bash
 # every archived independently written change must still be detected by the quick check of the property it breaks
 cd /verif
-for d in seeded/*/; do
+# ORDER: space separated property ids to take first (the others follow), e.g. ORDER="C14 C15 C16 C17 C18 C19 C20"
+list=""
+for p in $ORDER; do list="$list $(ls -d seeded/$p-*/ 2>/dev/null)"; done
+for d in seeded/*/; do case " $list " in *" $d "*) ;; *) list="$list $d";; esac; done
+for d in $list; do
   id=$(basename $d); prop=$(/venv/bin/python -c "import json;print(json.load(open('$d/meta.json'))['breaks_property'])")
   if grep -q "\"status\": \"neutralised\"" $d/meta.json; then echo "NEUTRAL  $id (no longer a defect on the repaired tree)"; continue; fi
   if grep -q "\"status\": \"out-of-scope\"" $d/meta.json; then echo "OUTSIDE  $id (needs something the property does not quantify over)"; continue; fi
